@@ -36,6 +36,7 @@ type Obs struct {
 	CtlReply  []byte              `json:"ctl_reply"`        //
 	Fallback  bool                `json:"fallback"`         // ctl mode: no control connection was up (rule re-pointed); sent over the topic instead
 	Resent    bool                `json:"resent"`           // the hub dropped the command before it reached the handler; sent again
+	Stuck     bool                `json:"stuck"`            // after this item the rule hubs (rwc/agg loops) did not take a no-op within 3 s
 	NoReply   bool                `json:"no_reply"`         // nothing within the deadline (twice)
 	Exit      bool                `json:"exit"`             // the host process ended while handling this item
 	Status    int                 `json:"status"`           // HTTP
@@ -72,8 +73,18 @@ func barrier(a *vw.App) {
 	a.Hub.Add <- agg.Rule{Stream: "deleteAll"}
 }
 
-func snapshot(a *vw.App, o *Obs) {
-	barrier(a)
+// snapshot reads both rule tables once the rule hubs have finished what they were handed.  If they do not even
+// take a no-op within 3 s they are stuck (deadlocked): that is reported for the item just run, and the
+// session ends.
+func snapshot(a *vw.App, o *Obs) bool {
+	done := make(chan struct{})
+	go func() { barrier(a); close(done) }()
+	select {
+	case <-done:
+	case <-time.After(3 * time.Second):
+		o.Stuck = true
+		return false
+	}
 	o.Dests = map[string]rwc.Rule{}
 	for k, v := range a.Websocket.Rules {
 		o.Dests[k] = v
@@ -82,6 +93,7 @@ func snapshot(a *vw.App, o *Obs) {
 	for k, v := range a.Hub.Rules {
 		o.Streams[k] = v
 	}
+	return true
 }
 
 // childMain runs one session read from stdin and prints one JSON line per item.
@@ -93,6 +105,9 @@ func childMain() {
 	if err := json.Unmarshal(in, &s); err != nil {
 		fmt.Fprintln(os.Stderr, "bad session:", err)
 		os.Exit(3)
+	}
+	if s.TmpDir != "" {
+		_ = os.MkdirAll(s.TmpDir, 0o755)
 	}
 	out := bufio.NewWriter(os.Stdout)
 	emit := func(o Obs) {
@@ -183,6 +198,12 @@ func childMain() {
 	for _, it := range s.Items {
 		var o Obs
 		switch {
+		case it.Kind == "pub":
+			// traffic on a topic, as a feed would produce it
+			for i := 0; i < 3; i++ {
+				app.Hub.Broadcast <- hub.Message{Sender: hub.Client{Name: "verif-feed", Topic: it.Path}, Data: it.Body, Type: websocket.BinaryMessage, Sent: time.Now()}
+				time.Sleep(time.Millisecond)
+			}
 		case it.Kind == "http":
 			var body io.Reader = bytes.NewReader(it.Body)
 			if it.Chunked {
@@ -262,8 +283,11 @@ func childMain() {
 			}
 			time.Sleep(300 * time.Microsecond)
 		}
-		snapshot(app, &o)
+		ok := snapshot(app, &o)
 		emit(o)
+		if !ok {
+			os.Exit(0)
+		}
 	}
 	os.Exit(0)
 }
